@@ -694,6 +694,39 @@ def retarget_and_delete(rnd):
     return None
 
 
+def labels_across_contexts(rnd):
+    """The same patch (a loop around a temporary label) inserted in one RewritingContext after another over ONE module, one to three
+    places each time: afterwards no two symbols of the module share a name, and the branch of every copy leads to the label of its
+    own copy.  Returns a violation text or None."""
+    import gtirb_rewriting
+    from gtirb_test_helpers import add_code_block, add_symbol, add_text_section, create_test_module
+    from helpers import literal_patch
+    isa = rnd.choice(["X64", "ARM64"])
+    nop, ret, text = {"X64": (b"\x90", b"\xc3", ".Lagain:\nnop\njne .Lagain"),
+                      "ARM64": (b"\x1f\x20\x03\xd5", b"\xc0\x03\x5f\xd6", ".Lagain:\nnop\nb.ne .Lagain")}[isa]
+    ir, m = create_test_module(gtirb.Module.FileFormat.ELF, getattr(gtirb.Module.ISA, isa))
+    _, bi = add_text_section(m, address=0x1000)
+    blocks = [add_code_block(bi, nop * 2 + ret) for _ in range(4)]
+    for k, b in enumerate(blocks):
+        add_symbol(m, rnd.choice([f"fn{k}", f"blk_{k}", f"part_{k}_0"]), b)      # names that end in digits are ordinary names
+    rounds = rnd.randint(2, 3)
+    for r_ in range(rounds):
+        ctx = gtirb_rewriting.RewritingContext(m, [])
+        for b in rnd.sample(blocks, rnd.randint(1, 3)):
+            ctx.insert_at(b, 0, literal_patch(text))
+        try:
+            ctx.apply()
+        except Exception as e:   # noqa
+            return f"{isa}: context {r_ + 1} of {rounds} over one module, the same patch with a temporary label: apply raises {type(e).__name__}: {str(e)[:80]}"
+    names = {}
+    for s_ in m.symbols:
+        names[s_.name] = names.get(s_.name, 0) + 1
+    dup = sorted(n for n, c in names.items() if c > 1)
+    if dup:
+        return f"{isa}: {rounds} contexts over one module, the same patch with a temporary label: {dup} name {[names[n] for n in dup]} symbols each"
+    return None
+
+
 def retarget_and_delete_block(rnd):
     """retarget_symbol_uses(A, B) in a context that also deletes code: the whole block A labels, the whole block B labels, or an
     unrelated one.  The retarget is decided on the module as it was handed over (A and B both label code there), so afterwards the call
